@@ -24,21 +24,37 @@ def CleanFalse (ps : List Pred) : Prop := ∀ p ∈ ps, p.assert = .ok false →
 
 /-! ## the model's dispatch is the one the source has now -/
 
-/-- the translator understood `predicate_extractor`, `predicate_to_koreo_result` and `evaluate_predicates` -/
-theorem extraction_ok : Koreo.Gen.PredicateTable.extractionOk = true := by decide
+/-- the translator could run `predicate_extractor`, `predicate_to_koreo_result` and `evaluate_predicates`
+    of the tree under test on its probe inputs, and the order of the assertion kinds is determined -/
+theorem extraction_ok :
+    Koreo.Gen.PredicateTable.extractionOk = true ∧ Koreo.Gen.PredicateTable.orderDetermined = true := by decide
 
-/-- the filter keeps the predicates whose *negated* assertion holds -/
-theorem filter_matches_source : Koreo.Gen.PredicateTable.filterSuffix = Predicates.filterSuffix := by decide
+/-- the compiled filter keeps exactly the predicates the model's `filterNeg` keeps, in the same
+    order, and is an error exactly when it is (probed on 16 assertion patterns); the syntactic scan,
+    where it recognises the source's shape, agrees -/
+theorem filter_matches_source :
+    Koreo.Gen.PredicateTable.filterProbe = Predicates.filterProbeTable ∧
+    (Koreo.Gen.PredicateTable.filterSuffix = "unknown" ∨
+     Koreo.Gen.PredicateTable.filterSuffix = Predicates.filterSuffix) := by decide
 
-/-- same map keys, tried in the same order, answering with the same outcome class -/
-theorem table_matches_source : Koreo.Gen.PredicateTable.cases = Predicates.caseTable := by decide
+/-- same map keys, tried in the same order, answering with the same outcome class; no key at all is
+    the unknown kind -/
+theorem table_matches_source :
+    Koreo.Gen.PredicateTable.cases = Predicates.caseTable ∧
+    Koreo.Gen.PredicateTable.bareOutcome = "PermFail" := by decide
 
-/-- every `case` returns (so only the first remaining predicate is looked at), the error scan of
-    the filtered list precedes the match, and both exception handlers answer PermFail -/
+/-- only the first remaining predicate is looked at (its message and delay are returned); the error
+    scan covers every survivor and precedes the match; a raising program, an error value and a
+    non-list answer PermFail; no program means continue -/
 theorem control_flow_matches_source :
-    Koreo.Gen.PredicateTable.everyCaseReturns = true ∧
-    Koreo.Gen.PredicateTable.scanBeforeMatch = true ∧
-    Koreo.Gen.PredicateTable.handlersReturnPermFail = true := by decide
+    Koreo.Gen.PredicateTable.firstOnly = Predicates.firstOnlyTable ∧
+    Koreo.Gen.PredicateTable.evaluatePredicates = Predicates.evaluatePredicatesTable ∧
+    Koreo.Gen.PredicateTable.noProgram = "continue" ∧
+    Koreo.Gen.PredicateTable.scanBeforeMatch ≠ "no" := by decide
+
+/-- the retry arm's delay conversion is the one the delay abstraction assumes -/
+theorem delay_conversion_matches_source :
+    Koreo.Gen.PredicateTable.delays = Predicates.delayTable := by decide
 
 /-! ## every assertion is a boolean -/
 
